@@ -162,6 +162,11 @@ Definition handle_ok (meta : bytes) (hdr : N) (bs : bytes) : Prop :=
 Definition tail_zero (bs : bytes) (hdr : N) : Prop :=
   forall i, (if get32 bs hdr =? 0 then first_off hdr else get32 bs hdr) <= i -> getb bs i = 0.
 
+(* the last four bytes of the first page (the bytes openMapped's second
+   creation write covers) are the same in b as in a *)
+Definition tail4_same (a b : bytes) : Prop :=
+  forall i, 16380 <= i -> i < 16384 -> getb b i = getb a i.
+
 Record Inv (s : wstate) : Prop := {
   inv_read : exists m kv limit tbl, spec_read (w_bs s) = Some (w_hdr s, m, kv, limit, tbl);
   inv_handle : handle_ok (w_meta s) (w_hdr s) (w_bs s);
@@ -335,7 +340,7 @@ Section NewCounter.
     exists off limit' tbl' rcd,
       r = NCOk off /\ spec_read bs' = Some (hdr, m, kv, limit', tbl') /\
       limit <= limit' /\ len bs <= len bs' /\ len bs' <= len bs + 32768 /\
-      handle_ok meta hdr bs' /\ tail_zero bs' hdr /\
+      handle_ok meta hdr bs' /\ tail_zero bs' hdr /\ tail4_same bs bs' /\
       In rcd (concat tbl') /\ r_off rcd = off /\ r_name rcd = name /\
       ((bs' = bs /\ tbl' = tbl /\ limit' = limit) \/
        (r_val rcd = 0 /\ Add rcd (concat tbl) (concat tbl') /\
@@ -363,9 +368,11 @@ Section NewCounter.
     destruct (find_name name c) as [r|] eqn:Ef.
     - (* the name is there *)
       apply find_name_some in Ef as [Hr En]. cbn [fst snd].
-      exists (r_off r), limit, tbl, r. repeat split; try assumption; try lia.
-      + apply in_concat. exists c. split; assumption.
-      + left. repeat split.
+      exists (r_off r), limit, tbl, r.
+      split; [reflexivity|]. split; [exact Hread|]. split; [lia|]. split; [lia|]. split; [lia|].
+      split; [exact Hhandle|]. split; [exact Htail|]. split; [intros i _ _; reflexivity|].
+      split; [apply in_concat; exists c; split; assumption|]. split; [reflexivity|]. split; [exact En|].
+      left. repeat split.
     - (* a new record *)
       apply find_name_none in Ef.
       assert (Hfresh : forall r, In r (concat tbl) -> r_name r <> name).
@@ -425,7 +432,8 @@ Section NewCounter.
       { unfold place_lim in P2. destruct (N.eqb_spec limit 0); lia. }
       assert (Hl' : len bs' = len bs + k') by exact (eq_trans L3 Hlen1).
       exists start, e, (zip_upd buckets (hash name) (start, name, 0) tbl), (start, name, 0).
-      repeat split; try assumption; try lia.
+      split; [reflexivity|]. split; [exact L1|]. split; [lia|]. split; [lia|]. split; [lia|].
+      split; [|split; [|split; [|split; [|split; [reflexivity|split; [reflexivity|]]]]]].
       + destruct Hhandle as (h0 & Hm0 & Hp0 & E0). exists h0. repeat split; try assumption.
         eapply has_prefix_agree; [apply (has_prefix_app_l bs (zeros k') h0 Hp0)|lia|].
         fold bs1. rewrite <- E0. apply L4; lia.
@@ -438,6 +446,14 @@ Section NewCounter.
         unfold bs1. apply (tail_zero_app bs hdr k' Htail i).
         rewrite (get32_agree (bs ++ zeros k') bs) by (apply agree_sym, agree_app_zeros).
         rewrite <- El. lia.
+      + (* the last four bytes of the first page are not touched *)
+        intros i Hi1 Hi2. rewrite <- (L4 i (i + 1)).
+        * unfold bs1. apply getb_app_zeros.
+        * lia.
+        * assert (start + rec_size (len name) <= 16352 \/ 16384 <= start) by divlia. lia.
+        * lia.
+        * lia.
+        * lia.
       + apply (Add_in L2). now left.
       + right. repeat split; assumption.
   Qed.
